@@ -302,6 +302,8 @@ def own_nodes(fn_node):
     while todo:
         n = todo.pop()
         out.append(n)
+        if isinstance(n, (ast.FunctionDef, ast.AsyncFunctionDef, ast.ClassDef)):
+            continue
         for c in ast.iter_child_nodes(n):
             if isinstance(c, (ast.FunctionDef, ast.AsyncFunctionDef, ast.ClassDef)):
                 out.append(c)
